@@ -131,13 +131,14 @@ def import_closure(roots):
     return seen
 
 
-def grep_forbidden(pid=None):
+def grep_forbidden(pid=None, ops=None):
     """forbidden tokens (comments stripped) in the Lean sources the property's theorems and the driver depend on
-    (import closure of Props/<pid> and Driver/Main); every source of the project when pid is None"""
+    (import closure of Props/<pid> and of the per-area drivers the check talks to); every source of the project when pid is None"""
     if pid is None:
         paths = [p for p in lean_sources() if os.sep + "Audit" + os.sep not in p]
     else:
-        paths = sorted(import_closure(["MakoModel.Props." + pid, "Driver.Main"]).values())
+        roots = ["MakoModel.Props." + pid, "Driver.Loop"] + ["Driver.Exe." + op for op in (ops or [])]
+        paths = sorted(import_closure(roots).values())
     hits = []
     for path in paths:
         txt = strip_lean_comments(open(path, encoding="utf-8").read())
